@@ -44,6 +44,8 @@ pub struct LimitTracker {
     pub high: usize,
     /// Limit.
     pub limit: usize,
+    #[cfg(apollo_rs_verif)]
+    pub(crate) traced: bool,
 }
 
 impl LimitTracker {
@@ -52,6 +54,8 @@ impl LimitTracker {
             current: 0,
             high: 0,
             limit,
+            #[cfg(apollo_rs_verif)]
+            traced: false,
         }
     }
 
@@ -67,10 +71,18 @@ impl LimitTracker {
             // Caller is gonna return early, keep increments and decrements balanced:
             self.decrement()
         }
+        #[cfg(apollo_rs_verif)]
+        if self.traced {
+            crate::verif_trace::emit("Inc", reached as u64, self.current as u64, self.high as u64);
+        }
         reached
     }
 
     pub fn decrement(&mut self) {
+        #[cfg(apollo_rs_verif)]
+        if self.traced {
+            crate::verif_trace::emit("Dec", self.current as u64, 0, 0);
+        }
         self.current -= 1;
     }
 }
